@@ -100,6 +100,8 @@ def violation_menu():
         'text-trunc': [SFrame(TEXT, b'ok\xe2\x82')],
         'text-frag-bad': [SFrame(TEXT, b'ok', fin=0), SFrame(CONT, b'\xf5', fin=0), SFrame(PING, b'late'), SFrame(CONT, b'end')],
         'cont-bad-utf8': [SFrame(CONT, b'\xfe')],
+        'empty-first-frag-bad-cont': [SFrame(TEXT, b'', fin=0), SFrame(CONT, b'\xf5', fin=0), SFrame(PING, b'late'), SFrame(CONT, b'end')],
+        'empty-frags-bad-cont': [SFrame(TEXT, b'', fin=0), SFrame(CONT, b'', fin=0), SFrame(CONT, b'ok\xc0', fin=0), SFrame(PONG, b''), SFrame(CONT, b'', fin=1)],
     }
 
 
@@ -144,8 +146,8 @@ class C04(F.Check):
     expect_sites = ('violation', 'valid', 'dontcare', 'client-closing', 'timed')
 
     def rule(self, tier):
-        return ('cases: (a) every (byte0, byte1) header completed to a frame, after prefix state idle/mid-binary/mid-text, plain and negotiated deflate; '
-                '(b) prefix x violation class x delivery {one read, per frame, bytewise, with handshake} x {plain, deflate} x {open, client-closing}'
+        return ('cases: (a) every (byte0, byte1) header completed to a frame, after prefix state idle/mid-binary/mid-text, plain, negotiated deflate and (idle prefix) deflate offered but declined; '
+                '(b) prefix x violation class x delivery {one read, per frame, bytewise, with handshake} x {plain, deflate, offered-but-declined} x {open, client-closing}'
                 + ('; single cuts of the violating frame' if tier == 'thorough' else '') +
                 '; (c) every 16-bit close code. distinct = distinct (reference verdict, observed event-name sequence, client opcode sequence)')
 
@@ -171,7 +173,7 @@ class C04(F.Check):
         neg = case.get('neg', False)
         if k == 'hdr':
             pre, post = PREFIXES[case['prefix']]
-            frames = pre + [header_frame(case['b0'], case['b1'], neg)] + post
+            frames = pre + [header_frame(case['b0'], case['b1'], neg is True)] + post
             mode = 'one'
         elif k == 'cls':
             frames = prefix_menu(case.get('tier', 'thorough'))[case['prefix']] + violation_menu()[case['cls']] + TRAILER
@@ -205,7 +207,9 @@ class C04(F.Check):
                 run = W.drive(world, ws, ws.connect(poll=case['poll'], ping_rate=case['rate'], close_timeout=None))
             problems, stop = scen.judge(run, frames, None, negotiated=False, auto_pings=True)
             return run, problems, stop
-        run = scen.play(frames, mode, ext=EXT if neg else b'', compress=neg, app=app, hash_states=hashes)
+        # neg: False = not offered; True = offered and accepted; 'declined' = offered (compress=True) but the reply carries no extension
+        run = scen.play(frames, mode, ext=EXT if neg is True else b'', compress=bool(neg), app=app, hash_states=hashes)
+        neg = neg is True
         inflate = scen.deflate_peer_inflate() if neg else None
         if closing:
             problems, stop = judge_client_closing(run, frames, inflate, neg)
@@ -239,7 +243,7 @@ class C04(F.Check):
         if job['k'] == 'hdr':
             b0 = job['b0']
             for prefix in ('idle', 'midbin', 'midtext'):
-                for neg in (False, True):
+                for neg in ((False, True, 'declined') if prefix == 'idle' else (False, True)):
                     for b1 in range(256):
                         case = {'k': 'hdr', 'b0': b0, 'b1': b1, 'prefix': prefix, 'neg': neg}
                         hashes = [] if (b1 & 127) in (0, 1, 125, 126, 127) else None
@@ -249,7 +253,7 @@ class C04(F.Check):
         elif job['k'] == 'cls':
             modes = ['one', 'frames', 'bytes', 'with-handshake']
             for cls in job['classes']:
-                for neg in (False, True):
+                for neg in (False, True, 'declined'):
                     for closing in (False, True):
                         for mode in modes:
                             case = {'k': 'cls', 'prefix': job['prefix'], 'cls': cls, 'mode': mode, 'neg': neg,
